@@ -1,0 +1,105 @@
+//! Verification hooks. Compiled only with the `verif` cargo feature; never enabled by default.
+//!
+//! * `emit` – one event per linearisation point, ordered by a process-wide sequence number that is
+//!   assigned while the sink lock is held.
+//! * `gate` – named pause points: no-ops unless a controller armed the gate, in which case the task
+//!   reports its arrival and waits until it is released.
+use std::collections::HashMap;
+use std::sync::Arc;
+use std::sync::atomic::{AtomicBool, AtomicU64, Ordering};
+
+use once_cell::sync::Lazy;
+use parking_lot::Mutex;
+use serde_json::{Map, Value};
+use tokio::sync::{Semaphore, watch};
+
+type Sink = Box<dyn FnMut(Value) + Send>;
+
+static ENABLED: AtomicBool = AtomicBool::new(false);
+static SEQ: AtomicU64 = AtomicU64::new(0);
+static SINK: Lazy<Mutex<Option<Sink>>> = Lazy::new(|| Mutex::new(None));
+
+/// Install (or remove) the event sink.
+pub fn set_sink(sink: Option<Sink>) {
+    let mut g = SINK.lock();
+    ENABLED.store(sink.is_some(), Ordering::SeqCst);
+    *g = sink;
+}
+
+pub fn enabled() -> bool {
+    ENABLED.load(Ordering::Relaxed)
+}
+
+/// Emit an event. `fields` must be a JSON object (anything else is stored under "data").
+pub fn emit(ev: &str, fields: Value) {
+    if !enabled() {
+        return;
+    }
+    let mut g = SINK.lock();
+    if let Some(sink) = g.as_mut() {
+        let seq = SEQ.fetch_add(1, Ordering::SeqCst) + 1;
+        let mut m = match fields {
+            Value::Object(m) => m,
+            Value::Null => Map::new(),
+            other => {
+                let mut m = Map::new();
+                m.insert("data".into(), other);
+                m
+            }
+        };
+        m.insert("seq".into(), Value::from(seq));
+        m.insert("ev".into(), Value::from(ev));
+        let task = tokio::task::try_id().map(|id| id.to_string()).unwrap_or_default();
+        m.insert("task".into(), Value::from(task));
+        sink(Value::Object(m));
+    }
+}
+
+struct GateState {
+    sem: Arc<Semaphore>,
+    arrivals: watch::Sender<u64>,
+}
+
+static GATES: Lazy<Mutex<HashMap<String, GateState>>> = Lazy::new(|| Mutex::new(HashMap::new()));
+
+/// Arm a gate: from now on tasks reaching `gate(name)` block until `release(name)` is called once
+/// per blocked arrival.
+pub fn arm(name: &str) -> watch::Receiver<u64> {
+    let mut g = GATES.lock();
+    let st = g.entry(name.to_string()).or_insert_with(|| GateState {
+        sem: Arc::new(Semaphore::new(0)),
+        arrivals: watch::channel(0).0,
+    });
+    st.arrivals.subscribe()
+}
+
+/// Remove a gate, releasing every task blocked on it.
+pub fn disarm(name: &str) {
+    if let Some(st) = GATES.lock().remove(name) {
+        st.sem.add_permits(Semaphore::MAX_PERMITS / 2);
+    }
+}
+
+/// Let `n` arrivals (present or future) pass the gate.
+pub fn release(name: &str, n: usize) {
+    if let Some(st) = GATES.lock().get(name) {
+        st.sem.add_permits(n);
+    }
+}
+
+/// Named pause point.
+pub async fn gate(name: &str) {
+    let sem = {
+        let g = GATES.lock();
+        match g.get(name) {
+            None => return,
+            Some(st) => {
+                st.arrivals.send_modify(|n| *n += 1);
+                st.sem.clone()
+            }
+        }
+    };
+    if let Ok(p) = sem.acquire().await {
+        p.forget();
+    }
+}
